@@ -16,6 +16,7 @@ TRUSTED_BASE = [
 ASSUMPTIONS = [
     "polygon-like regions over categorical axes (per-category np.arange/np.repeat/contains loops, polygon_line_intersections, CategoricalROISubsetState2D / CategoricalMultiRangeSubsetState.to_mask) are numpy code: bounded stand-in only",
     "RangeSubsetState is inclusive while RangeROI.contains is strict: they differ only on the boundary band, which the property excludes",
+    "boundary band = 1e-6, except for circles / ellipses / annuli over a categorical axis, which glue evaluates through their 100-vertex polygon: band = 6e-4 x radius (the polygon's sagitta)",
 ]
 
 
